@@ -356,8 +356,7 @@ class IterOf(Ty):
         return SIter(xs, SInt(p))
 
     def concrete(self, cx, name):
-        from .replaylib import PeekIter
-        return PeekIter(ListOf(self.elem).concrete(cx, name))
+        return iter(ListOf(self.elem).concrete(cx, name))
 
 
 class FixedList(Ty):
